@@ -237,4 +237,70 @@ def run(chk, tier):
         ok = "4294967295" in cond and "Eq" in cond and H.path_of(e[3]) == "len" and any((c or "").endswith("even_len") for c, _ in H.calls(e[4]))
     chk.expect(ok, "even-round", "encode_item_header", "defined-length-rounded", "undefined kept, defined rounded to even", [H.show(x[3], 6) for x in lets], loc=C.fn_loc(h))
 
+    # ---------- rule 5: textual widths of date / time values
+    chk.rule("date-time-width", "the byte length declared for DA/TM/DT values (da_byte_len / tm_byte_len / dt_byte_len, used for the header) equals the width of the text "
+             "that to_encoded() formats, per precision: templates compared with compiled references of the PS3.5 forms (YYYY, YYYYMM, YYYYMMDD, HH, HHMM, HHMMSS, HHMMSS.F+)")
+    import json as _json
+
+    def fmt_sig(body):
+        s = _json.dumps(body)
+        return (re.findall(r'\["bstr", "(?:[^"\\]|\\.)*", "([0-9a-f]+)"\]', s), re.findall(r"Argument::<'_>::(new_\w+)", s))
+    refs = facts.fixture("fmtref")
+    PART = "dicom_core::value::partial"
+    want = {"DicomDate": {"Year": ("da_y", 4), "Month": ("da_ym", 6), "Day": ("da_ymd", 8)},
+            "DicomTime": {"Hour": ("tm_h", 2), "Minute": ("tm_hm", 4), "Second": ("tm_hms", 6), "Fraction": ("tm_hmsf", 7)}}
+    for ty, table in want.items():
+        h = fx.hirfn(f"{PART}::{ty}::to_encoded")
+        ms = [m for m in H.walk(h["body"]) if H.kind(m) == "match" and H.path_of(H.peel(m[2])) == "self"]
+        if len(ms) != 1:
+            raise facts.MissingAnchor(f"{ty}::to_encoded: match self")
+        seen_v = set()
+        for p, g, b, ln in H.match_arms(ms[0]):
+            t = H.show_pat(p)
+            mm = re.match(rf"{ty}\((\w+)\(", t)
+            if not mm or mm.group(1) not in table:
+                chk.bad("date-time-width", f"{ty}::to_encoded", t, "a known precision variant", t, loc=f"{h['loc']['f']}:{ln}")
+                continue
+            v = mm.group(1)
+            seen_v.add(v)
+            refname, width = table[v]
+            chk.expect(fmt_sig(b) == fmt_sig(refs[f"fmtref::{refname}"]["body"]), "date-time-width", f"{ty}::to_encoded", v, f"template of fmtref::{refname} ({width} characters" + (" + fraction digits)" if v == "Fraction" else ")"),
+                       fmt_sig(b), loc=f"{h['loc']['f']}:{ln}")
+        chk.expect(seen_v == set(table), "date-time-width", f"{ty}::to_encoded", "variants", sorted(table), sorted(seen_v))
+    # the fraction text has exactly `fp` digits: 10^fp + f printed without its leading digit
+    ht = fx.hirfn(f"{PART}::DicomTime::to_encoded")
+    tt = H.show(ht["body"], 40)
+    frac_arm = [b for p, g, b, ln in H.match_arms([m for m in H.walk(ht["body"]) if H.kind(m) == "match" and H.path_of(H.peel(m[2])) == "self"][0]) if "Fraction" in H.show_pat(p)]
+    ft = H.show(frac_arm[0], 40) if frac_arm else ""
+    chk.expect("core::num::<impl u32>::pow(10, (Deref(fp) as u32)) Add f" in ft.replace("(", "(").replace("  ", " ") or ("pow(10" in ft and "Add f" in ft and "sfrac.get(core::ops::range::RangeFrom{start: 1})" in ft),
+               "date-time-width", "DicomTime::to_encoded", "fraction-digits", "(10^fp + f).to_string()[1..]: exactly fp digits", ft[:200], loc=C.fn_loc(ht))
+    # the length tables
+    for fn, table in (("da_byte_len", {"Year": 4, "Month": 6, "Day": 8}), ("tm_byte_len", {"Hour": 2, "Minute": 4, "Second": 6})):
+        h = fx.hirfn(f"{PV}::{fn}")
+        ms = [m for m in H.walk(h["body"]) if H.kind(m) == "match" and m[3].endswith("DateComponent")]
+        if len(ms) != 1:
+            raise facts.MissingAnchor(f"{fn}: match over DateComponent")
+        got = {}
+        for p, g, b, ln in H.match_arms(ms[0]):
+            hd = H.pat_head(H.pat_alts(p)[0])
+            if hd[0] == "variant":
+                got[hd[1].split("::")[-1]] = H.int_lit(H.peel(b))
+        for v, w in table.items():
+            chk.expect(got.get(v) == w, "date-time-width", fn, v, w, got.get(v), loc=C.fn_loc(h))
+        if fn == "tm_byte_len":
+            fr = [b for p, g, b, ln in H.match_arms(ms[0]) if H.show_pat(p).endswith("Fraction")]
+            t = H.show(fr[0], 12) if fr else ""
+            arms = [H.show(a[2], 8) for m2 in H.walk(fr[0]) if H.kind(m2) == "match" for a in m2[4]] if fr else []
+            chk.expect(any(a.replace(" ", "") == "(7Add(fpasusize))" for a in arms), "date-time-width", fn, "Fraction", "7 + fp (HHMMSS + '.' + fp digits)", arms, loc=C.fn_loc(h))
+    h = fx.hirfn(f"{PV}::dt_byte_len")
+    t = H.show(h["body"], 20)
+    tz = [H.int_lit(H.peel(a[2])) for m2 in H.walk(h["body"]) if H.kind(m2) == "match" and "has_time_zone" in H.show(m2[2], 4) for a in m2[4]]
+    tm_calls = [x for c, x in H.calls(h["body"]) if c and c.endswith("::tm_byte_len")]
+    chk.expect("da_byte_len(datetime.date())" in t and len(tm_calls) == 1 and sorted(x for x in tz if x is not None) == [0, 5], "date-time-width", "dt_byte_len", "terms",
+               "da_byte_len(date) + (tm_byte_len(time) | 0) + (5 | 0)  [&ZZXX]", {"text": t[:160], "tz": tz}, loc=C.fn_loc(h))
+    hd_ = fx.hirfn(f"{PART}::DicomDateTime::to_encoded")
+    td = H.show(hd_["body"], 30)
+    n_tz = len(re.findall(r"offset\.to_string\(\)\.replace\(':', ''\)", td)) + len([x for x in H.walk(hd_["body"]) if H.kind(x) == "mcall" and x[3] == "replace"])
+    chk.expect(n_tz >= 2, "date-time-width", "DicomDateTime::to_encoded", "offset-text", "the UTC offset is printed as +HH:MM with the colon removed (5 characters)", n_tz, loc=C.fn_loc(hd_))
+
     chk.undecided.append("validation of real output bytes by an independent parser; DataSetWriter delimiter placement is covered under C02")
